@@ -9,6 +9,7 @@
 //!   `VIOLATION property=<id> replay=<path>` line was printed), 2 = machinery
 //!   failure (no verdict).
 pub mod json;
+pub mod refcodec;
 
 use json::J;
 use std::collections::BTreeMap;
